@@ -255,6 +255,8 @@ def run(ctx):
     for it in range(ctx.q(8, 40) * len(plan)):
         clause, cls = plan[it % len(plan)]
         N = int(rng.integers(16, 49))
+        if (it // len(plan)) % 4 == 1:
+            N = int(rng.integers(110, 200))       # long records (internal caps and blocked paths, e.g. the 100-row cap of the FB matrix)
         NFFT = int(rng.choice([N, N + 1, N + 2, N + 5, 2 * N, 2 * N + 1, 64, 67])); NFFT = max(NFFT, N)
         # the first pass over the plan: real samples declared complex (zero imaginary part), for every clause and class
         x, kind = E.gen_data(rng, N, True, 'realc' if it < len(plan) else None)
